@@ -80,7 +80,8 @@ def run (t : Tier) : Emit Unit := do
         fuel := fuel - 1
         let d ← liftGen (genDescriptorOfKind k)
         if (descriptorBody d).length ≤ 150 then
-          ds := descsP [d]
+          -- every other case carries a stale `Length` in the struct: what is announced is what is written
+          ds := (descsP [d]).map fun x => if fuel % 2 = 0 then { x with length := (x.length + 3) % 256 } else x
           fuel := 0
       let ops : List MuxOp := [.add { elementaryPID := 0x100, elementaryStreamDescriptors := ds, streamType := 0x06 }, .setPCR 0x100, .tables]
       emit "C09" (DriverMux.muxCase { period := 40, ops := ops } true "mux-sections-per-descriptor-kind")
